@@ -578,7 +578,18 @@ func TestVerif(t *testing.T) {
 			Scenario string `json:"scenario"`
 			History  []op   `json:"history"`
 		}
-		if r.ReplayInto(&probe) && strings.HasPrefix(probe.Scenario, "bfs:") {
+		if r.ReplayInto(&probe) && probe.Scenario == "fault" {
+			var fc faultCase
+			_ = r.ReplayInto(&fc)
+			r.Eval(1)
+			if k, d, hung, _ := runFaultCase(fc); hung {
+				r.NotExhaustive(d)
+			} else if k != "" {
+				r.Violation(k, d, fc)
+			}
+			return
+		}
+		if r.Replay() != nil && strings.HasPrefix(probe.Scenario, "bfs:") {
 			for _, c := range configs(true) {
 				if c.name() == probe.Scenario {
 					r.Eval(1)
@@ -644,6 +655,7 @@ func TestVerif(t *testing.T) {
 				r.Distinct(o)
 			}
 			r.Extra("bfs_configs", int64(len(cfgs)))
+			runFaultPass(r)
 		}
 		schedrun.Run(r, scenarios())
 	})
